@@ -564,6 +564,21 @@ def rule_reader_guards(ctx, rule_accept, rule_offsets):
                   message=f"offset cache entry `{norm(t)}` is not computed as offset[n] + len(line) "
                           f"(got `{norm(n.ast.value)}`)",
                   how="offset[n+1] = offset[n] + len(line)", where=where(f, n.ast))
+    # only lines inside the size snapshot may be entered into the cache (a line that reaches beyond
+    # the snapshot may be the first chunk of an append still in progress: its length is not final)
+    acc_sz = []
+    for t in g.stmt_nodes():
+        if t.kind == "test":
+            pol = edges_where(resolve(t.expr, defs), atom_neg)
+            for k, m in t.succ:
+                if pol.get(k) is False:
+                    acc_sz.append((t, k, m))
+    for n, t in stores:
+        r = g.reachable(body0, avoid_nodes=[head], avoid_edges=acc_sz)
+        ctx.check(bool(acc_sz) and n not in r, rule_offsets, f.short, "offset-store-within-size-snapshot",
+                  message="an offset-cache entry can be created for a line that extends beyond the file size observed at the start of the read "
+                          "(possibly the first chunk of a concurrent append): later reads would seek into the middle of a record",
+                  how="the cache store is dominated, within the iteration, by the `remaining size >= 0` edge", where=where(f, n.ast))
     # seek start must come from the cache for exactly the requested record
     seeks = [c for n in g.stmt_nodes() for c in n.calls() if isinstance(c.func, ast.Attribute) and c.func.attr == "seek"]
     for c in seeks:
